@@ -1,81 +1,46 @@
 #!/venv/bin/python
-"""Runs every check against every stored patch, applied as an in-memory
-overlay of the current tree:
-  /verif/refactors/*/patch.diff  behaviour-preserving -> every check must exit 0
-  /verif/seeded/*/patch.diff     property-breaking    -> some check must exit 1
-                                  (the ids in EXPECTED_MISSES are known misses)
-usage: tools/patch_corpus.py [refactors|seeded|all] [-j N]
+"""Runs every check against every stored patch (see jslstatic/selftest/patches.py).
+usage: tools/patch_corpus.py [refactors|seeded|all] [-j N] [--record]
+       tools/patch_corpus.py one <id>
+--record rewrites seeded/EXPECT.json (seed id -> checks that report it); the
+ids in EXPECTED_MISSES are changes no check reports (documented in DESIGN.md §7).
 """
-import json, os, shutil, subprocess, sys, tempfile, time
+import json, os, sys, time
 from concurrent.futures import ProcessPoolExecutor
 
 V = os.path.dirname(os.path.dirname(os.path.abspath(__file__)))
 sys.path.insert(0, V)
+from jslstatic.selftest import patches  # noqa: E402
+
 EXPECTED_MISSES = {"C05-s2", "C14-s2"}
 
 
-def overlay_of(patch):
-    """Applies the patch to copies of the touched files; {rel: text} or None."""
-    files = []
-    for ln in open(patch, encoding="utf-8"):
-        if ln.startswith("+++ b/"):
-            files.append(ln[6:].strip())
-    tmp = tempfile.mkdtemp(prefix="pc-")
-    try:
-        for rel in files:
-            dst = os.path.join(tmp, rel)
-            os.makedirs(os.path.dirname(dst), exist_ok=True)
-            src = os.path.join("/repo", rel)
-            if os.path.exists(src):
-                shutil.copy(src, dst)
-        r = subprocess.run(["patch", "-p1", "-s", "-f", "--no-backup-if-mismatch", "-i", patch], cwd=tmp, capture_output=True, text=True)
-        if r.returncode != 0:
-            return None
-        return {rel: open(os.path.join(tmp, rel), encoding="utf-8").read() for rel in files if rel.endswith(".py")}
-    finally:
-        shutil.rmtree(tmp, ignore_errors=True)
-
-
-def run_one(item):
-    kind, pid, patch = item
-    from jslstatic.cli import Ctx, run_property
-
-    ov = overlay_of(patch)
-    if ov is None:
-        return kind, pid, "stale", {}
-    props = [c["property_id"] for c in json.load(open(os.path.join(V, "MANIFEST.json")))["checks"]]
-    try:
-        base = Ctx("C00", "quick", 0, overlay=ov)
-        _ = base.types
-    except Exception as e:
-        return kind, pid, f"error {e!r}", {}
-    res = {}
-    for p in props:
-        code, chk, err = run_property(p, write=False, quiet=True, base=base)
-        if code != 0:
-            res[p] = (code, err or "; ".join(f"{f.rule}: {f.message[:90]}" for f in chk.findings[:2]))
-    return kind, pid, "ran", res
+def one(pid):
+    for kind, name, p in patches.items():
+        if name == pid:
+            k, _, st, res = patches.run_one((kind, name, p, patches.all_props()))
+            print(pid, st)
+            for prop, (code, msg) in res.items():
+                print(f"  {prop} exit {code}: {msg[:400]}")
+            sys.stdout.flush()
+            os._exit(0)
+    print("no such patch")
+    os._exit(2)
 
 
 def main():
+    if len(sys.argv) > 2 and sys.argv[1] == "one":
+        one(sys.argv[2])
     which = sys.argv[1] if len(sys.argv) > 1 and not sys.argv[1].startswith("-") else "all"
     jobs = int(sys.argv[sys.argv.index("-j") + 1]) if "-j" in sys.argv else min(16, os.cpu_count() or 4)
-    items = []
-    if which in ("refactors", "all"):
-        for d in sorted(os.listdir(os.path.join(V, "refactors"))):
-            p = os.path.join(V, "refactors", d, "patch.diff")
-            if os.path.exists(p):
-                items.append(("refactor", d, p))
-    if which in ("seeded", "all"):
-        for d in sorted(os.listdir(os.path.join(V, "seeded"))):
-            p = os.path.join(V, "seeded", d, "patch.diff")
-            if os.path.exists(p):
-                items.append(("seeded", d, p))
+    props = patches.all_props()
+    work = [(k, n, p, props) for k, n, p in patches.items(which)]
     t0 = time.time()
     with ProcessPoolExecutor(max_workers=jobs) as ex:
-        results = list(ex.map(run_one, items))
+        results = list(ex.map(patches.run_one, work))
     bad = 0
     n_ref = n_seed = n_det = n_stale = 0
+    expect = {}
     for kind, pid, st, res in results:
         if st != "ran":
             n_stale += 1
@@ -89,14 +54,20 @@ def main():
                     print(f"  FALSE ALARM refactor {pid}: {p} exit {code}: {msg[:200]}")
         else:
             n_seed += 1
-            det = [p for p, (c, _) in res.items() if c == 1]
+            det = sorted(p for p, (c, _) in res.items() if c == 1)
             errs = [p for p, (c, _) in res.items() if c == 2]
+            expect[pid] = det
             if det:
                 n_det += 1
             elif pid not in EXPECTED_MISSES:
                 bad += 1
                 print(f"  MISSED seeded {pid}: no check reports it (analysis errors: {errs})")
     print(f"patch corpus: {n_ref} refactors silent-checked, {n_seed} seeded ({n_det} detected), {n_stale} stale, {bad} problems, {time.time() - t0:.0f}s")
+    if "--record" in sys.argv and which in ("all", "seeded") and not n_stale:
+        with open(patches.EXPECT, "w", encoding="utf-8") as fh:
+            json.dump(dict(sorted(expect.items())), fh, indent=1)
+            fh.write("\n")
+        print("recorded", patches.EXPECT)
     sys.stdout.flush()
     os._exit(1 if bad else 0)
 
